@@ -122,6 +122,8 @@ def run_group_uncached(pid, tier, crate, feat, obls, jobs):
             cmd += ["--no-default-features", "--features", features]
         if all(o["kani_flags"] for o in obls):
             cmd += [x for x in obls[0]["kani_flags"] if x not in ("-Z", "unstable-options")]
+        if os.environ.get("VERIF_SOLVER"):
+            cmd += ["--solver", os.environ["VERIF_SOLVER"]]
         for h in names:
             cmd += ["--harness", "verif_harness::" + h]
         cmd = ["bash", "-c", "ulimit -v %d; exec \"$@\"" % (28 * 1024 * 1024), "--"] + cmd
